@@ -12,7 +12,7 @@ import (
 
 var symBytes = map[string]string{
 	"*": "*", "_": "_", "a": "a", " ": " ", ".": ".",
-	"NBSP": " ", "LAQUO": "«", "EACUTE": "é",
+	"NBSP": " ", "LAQUO": "«", "EACUTE": "é", "FF": "\f", "TAB": "\t", "EMSP": "\u2003", "EMDASH": "\u2014", "EURO": "\u20ac",
 	"[": "[", "]": "]", "(": "(", ")": ")", "!": "!", "\\": "\\", "`": "`",
 	"<": "<", ">": ">", "/": "/", "\"": "\"", "-": "-", "?": "?", "&": "&", "#": "#",
 	";": ";", "x": "x", "m": "m", "p": "p", "1": "1", "G": "G", "t": "t", "l": "l", ":": ":",
